@@ -12,12 +12,18 @@ import (
 	"fmt"
 	"path/filepath"
 
+	"github.com/q191201771/lal/pkg/hls"
 	"github.com/q191201771/lal/pkg/mpegts"
 )
 
 // startRecordMpegtsIfNeeded 必要时开启ts录制
 func (group *Group) startRecordMpegtsIfNeeded(nowUnix int64) {
 	if !group.config.RecordConfig.EnableMpegts {
+		return
+	}
+
+	if !hls.StreamNameIsSafePathElement(group.streamName) {
+		Log.Errorf("[%s] record mpegts not started since stream name can not be used as file name. streamName=%s", group.UniqueKey, group.streamName)
 		return
 	}
 
